@@ -226,7 +226,7 @@ def truth(self, v: Term, st: State) -> Term:
         return v
     if v.op in ("func", "class", "bound", "closure", "module", "builtin", "ext"):
         return TRUE
-    if v.op == "tuple":
+    if v.op in ("tuple", "sbytes"):
         return C(len(v.args[0]) > 0)
     if v.op == "ref":
         o = self.obj(st, v)
@@ -351,6 +351,19 @@ def get_attr(self, base: Term, name: str, st: State, node=None) -> Term:
                             return mk("bound", member.qualname, id(member.node), mk("class", o.cls.qualname))
                         self.fis[id(member.node)] = member
                         return mk("bound", member.qualname, id(member.node), base)
+                    if isinstance(member, ast.Call) and isinstance(member.func, ast.Name) and member.func.id == "property" and member.args and not member.keywords:
+                        # name = property(<getter>) in the class body: reading the attribute on an instance calls the getter
+                        g = member.args[0]
+                        gfi = None
+                        if isinstance(g, ast.Lambda):
+                            gfi = self._prop_getters.get(id(g))
+                            if gfi is None:
+                                gfi = FuncInfo(owner.module, g, "%s.%s.<fget>" % (owner.qualname, name), owner)
+                                self._prop_getters[id(g)] = gfi
+                        elif isinstance(g, ast.Name) and isinstance(owner.methods.get(g.id), FuncInfo):
+                            gfi = owner.methods[g.id]
+                        if gfi is not None:
+                            return self.call_function(gfi, [base], {}, st, node, self_term=base)
                     return self._class_attr_value(owner, name, member, st)
                 ext = o.cls.external_bases()
                 if o.origin is not None:
@@ -506,6 +519,22 @@ def _static_dispatch_table(self, owner: ClassInfo, expr):
 
 
 # ---------------------------------------------------------------------- subscripts
+def sbytes(items) -> Term:
+    """immutable bytes value with symbolic byte terms (constant bytes when every byte is constant)"""
+    items = tuple(items)
+    if all(is_const(x) and isinstance(cval(x), int) and 0 <= cval(x) < 256 for x in items):
+        return C(bytes(cval(x) for x in items))
+    return mk("sbytes", items)
+
+
+def sb_items(t: Term):
+    if t.op == "sbytes":
+        return list(t.args[0])
+    if is_const(t) and isinstance(cval(t), bytes) and len(cval(t)) <= 4096:
+        return [C(b) for b in cval(t)]
+    return None
+
+
 def ev_subscript(self, e: ast.Subscript, st: State) -> Term:
     base = self.ev(e.value, st)
     if isinstance(e.slice, ast.Slice):
@@ -534,6 +563,8 @@ def do_subscript(self, base: Term, idx: Optional[Term], sl, st: State, node) -> 
                 return r
             if base.op == "tuple":
                 return mk("tuple", tuple(base.args[0][l:h:s]))
+            if base.op == "sbytes":
+                return sbytes(base.args[0][l:h:s])
         self.emit("slice", node, st, base=base, lo=lo, hi=hi, step=stp)
         if o is not None:
             return mk("slice", base, lo, hi, stp, o.version)
@@ -552,7 +583,7 @@ def do_subscript(self, base: Term, idx: Optional[Term], sl, st: State, node) -> 
         except (KeyError, IndexError, TypeError):
             self.emit("subscript", node, st, base=base, index=idx, certain_fail=True)
             return mk("sub", base, idx)
-        if base.op == "tuple" and isinstance(i, int) and -len(base.args[0]) <= i < len(base.args[0]):
+        if base.op in ("tuple", "sbytes") and isinstance(i, int) and -len(base.args[0]) <= i < len(base.args[0]):
             return base.args[0][i]
         if o is not None and o.kind in ("list", "bytearray") and o.exact and isinstance(i, int):
             if -len(o.items) <= i < len(o.items):
@@ -627,6 +658,17 @@ def binop(self, op: str, l: Term, r: Term, st: State, node=None) -> Term:
         return self.new_list(st, lo.items * cval(r))
     if op == "Mult" and ro is not None and ro.kind == "list" and ro.exact and is_const(l) and isinstance(cval(l), int) and cval(l) * max(1, len(ro.items)) <= 4096:
         return self.new_list(st, ro.items * cval(l))
+    if op == "Add" and (l.op == "sbytes" or r.op == "sbytes"):
+        li, ri = sb_items(l), sb_items(r)
+        if li is not None and ri is not None:
+            return sbytes(li + ri)
+        # list + bytes (either order) is a TypeError in Python 3, whatever the contents
+        for a, b in ((lo, r), (ro, l)):
+            if a is not None and a.kind == "list" and b.op == "sbytes":
+                self.emit("raise", node, st, exc="TypeError", exc_term=mk("builtin", "TypeError"), args=(), reraise=False, implicit=True, construct="list + bytes")
+                raise PathDead()
+    if op == "Mult" and l.op == "sbytes" and is_const(r) and isinstance(cval(r), int) and cval(r) * len(l.args[0]) <= 4096:
+        return sbytes(l.args[0] * cval(r))
     if op == "Add" and l.op == "tuple" and r.op == "tuple":
         return mk("tuple", l.args[0] + r.args[0])
     if op == "Add" and l.op == "tuple" and is_const(r) and isinstance(cval(r), tuple):
@@ -710,7 +752,7 @@ def _none_status(self, t: Term, st: State):
     """True: is None; False: certainly not None; None: unknown"""
     if t is NONE:
         return True
-    if is_const(t) or t.op in ("static", "ref", "tuple", "func", "class", "bound", "closure", "module", "bin", "cmp", "len", "builtin"):
+    if is_const(t) or t.op in ("static", "ref", "tuple", "sbytes", "func", "class", "bound", "closure", "module", "bin", "cmp", "len", "builtin"):
         return False
     for (f, pol) in st.facts:
         if f.op == "cmp" and f.args[0] in ("Is", "IsNot") and f.args[1] is t and f.args[2] is NONE:
@@ -799,6 +841,11 @@ def call_function(self, fi: FuncInfo, args, kwargs, st: State, node, self_term=N
     depth = len(self.frames)
     active = [f.fi for f in self.frames]
     site = fresh_uid()
+    hook = self.summaries.get(fi.qualname) if self.summaries else None
+    if hook is not None:
+        r = hook(self, fi, args, kwargs, st, node)
+        if r is not None:
+            return r
     summary = self.models.repo_summary(self, fi, args, kwargs, st, node)
     if summary is not None:
         return summary
@@ -986,7 +1033,7 @@ def iter_items(self, v: Term, st: State) -> Optional[List[Term]]:
         if isinstance(x, dict) and len(x) <= 1024:
             return [self.lift(i) for i in x]
         return None
-    if v.op == "tuple":
+    if v.op in ("tuple", "sbytes"):
         return list(v.args[0])
     if v.op == "ref":
         o = self.obj(st, v)
